@@ -28,6 +28,11 @@ for d in sorted(glob.glob('/verif/seeded/*/meta.json')):
             o=mm.group(1)+":"+mm.group(2)
             if o not in obs: obs.append(o)
     res[i]={'checked':props,'violations':len(obs),'obligations':obs}
-    print(i,props,'violations=%d'%len(obs),'; '.join(obs[:2])[:200])
+    # a run that did not complete (govc failed, tree does not type-check, patch does not apply)
+    # is not a verdict: flagged, so that it is re-run instead of being read as "not detected"
+    failed=[l for l in out.splitlines() if 'govc failed' in l or 'BROKEN' in l or 'PATCH DOES NOT APPLY' in l or 'load error' in l]
+    if not obs and (failed or 'obligations discharged' not in out):
+        res[i]['run_failed']=True
+    print(i,props,'violations=%d'%len(obs),'RUN-FAILED' if res[i].get('run_failed') else '','; '.join(obs[:2])[:200])
 json.dump(res,open(os.environ.get('RESULTS_OUT','/verif/seeded/results.json'),'w'),indent=1)
 PY
